@@ -456,13 +456,21 @@ impl Action {
         fallback_status_code: u16,
         unit_trace: &mut UnitTrace,
     ) -> (u16, u16) {
-        let action_status_code = self.get_status_code(response_status_code, Some(unit_trace));
-        if response_status_code == 0 && action_status_code == 0 {
-            let final_status_code = self.get_status_code(fallback_status_code, Some(unit_trace));
-            (final_status_code, fallback_status_code)
-        } else {
-            (action_status_code, response_status_code)
+        // As a proxy does, ask first for the status code at request time: when the action has one,
+        // the backend is never called and its response status code does not matter
+        let request_status_code = self.get_status_code(0, Some(unit_trace));
+
+        if request_status_code != 0 {
+            return (request_status_code, request_status_code);
         }
+
+        let backend_status_code = if response_status_code == 0 {
+            fallback_status_code
+        } else {
+            response_status_code
+        };
+
+        (self.get_status_code(backend_status_code, Some(unit_trace)), backend_status_code)
     }
 
     pub fn get_status_code(&mut self, response_status_code: u16, unit_trace: Option<&mut UnitTrace>) -> u16 {
